@@ -447,8 +447,10 @@ def rewrite_eval(ctx: Ctx) -> Evaluator:
             return False
 
         def pol(fi: FunctionInfo, depth: int) -> bool:
-            if fi.cls is not None and fi.name in ('contains_reference', 'contains_self_reference', 'contains_definition'):
-                return False    # the reference queries are atoms of the rewrite schemas, however they are implemented (S3's business)
+            if fi.cls is not None and fi.name in ('contains_reference', 'contains_self_reference', 'contains_definition') and not ctx.model.is_leaf(fi.cls):
+                # the generic implementation of a reference query is an atom of the rewrite schemas, however it is written
+                # (S3's business); the overrides of the leaf classes (not x -> x, ...) are still looked through
+                return False
             if fi.module.name == 'hpl.rewrite' and (fi.name.startswith(('_simplify', 'get_', '_obvious')) or fi.name in ('split_and', 'simplify', 'empty_test', 'refactor_reference', 'canonical_form', 'true', 'false')):
                 return False
             if fi.module.name == 'hpl.rewrite' and fi.name.startswith(('_split', '_and_pre', '_refactor', '_canonical')):
